@@ -20,7 +20,9 @@ ASSUMPTIONS = [
     "LanczosUnary/ArnoldiUnary._matmat (coq/C07_Unary.v: Ritz values dropped only below 10*eps*max|ritz|) on the oracle data of the same run (cola's lanczos/arnoldi factorisation, "
     "LAPACK eigh/eig/solve, numpy log); the end-to-end comparison with log det is made only where the factorisation is expected to have converged (Lanczos: cond*tol <= 1e-3, "
     "tolerance 1e-6 + 1e3*eps*cond*n; Arnoldi: cond*tol <= 1e-10), because both algorithms legitimately stop once the remaining spectrum is below tol*|lambda|_max",
-    "wide regime of the structural stream (payload scales 1e-8..1e8, dense nodes with cond 1e3..1e8): oracle tolerances are widened by 100*eps*cond*N (the determinant of an ill-conditioned node is only "
+    "lazy Transpose / Adjoint wrappers (constructor and .T / .H) around base nodes and around structured operators in every stream; for the Krylov rule the model follows "
+    "apply_unary's Transpose / Adjoint rules: the oracle data are those of the innermost operator and the trace of an Adjoint is conjugated",
+    "wide regime of the structural stream (payload scales 1e-8..1e8, dense nodes with cond 1e3..1e8, PSD nodes at tiny overall scale: eigenvalues near or below the dtype's unit roundoff, float32 1e-4..1e-10, float64 1e-9..1e-18): oracle tolerances are widened by 100*eps*cond*N (the determinant of an ill-conditioned node is only "
     "defined to eps*cond); the model-vs-implementation comparison keeps its tolerance",
     "whether a node is annotated PSD is read from the implementation (A.isa(PSD)); a node annotated PSD whose matrix is not Hermitian positive definite is outside the quantifier (that is property C05)",
 ]
@@ -132,12 +134,13 @@ def gen_graded(ctx, present=()):
     """Krylov stream on widely graded spectra: condition numbers 1e3..1e10 (float64; up to 3e3 in float32), determinants far below
     and above 1, default and explicit stopping tolerances, dense and lazy (Sum, G^H G + jitter I) operators, max_iters = size"""
     r = ctx.rng
-    cplx = r.random() < 0.35
     name = r.choice(["lanczos", "lanczos", "arnoldi"])
+    cplx = r.random() < (0.6 if name == "arnoldi" else 0.35)   # Arnoldi: mostly complex operators (determinants with a non-real phase)
     f32 = r.random() < 0.15
     cond = 10.0 ** (r.uniform(1, 3.4) if f32 else r.uniform(3, 10))
     psd = True if name == "lanczos" else (r.random() < 0.5 or "krylov_slogdet_abs_of_trace" in present)
     g = C.RGen(r, krylov=dict(cond=cond, psd=psd, lazy=not f32, f32=f32))
+    g.wrap_p = 0.35 if name == "arnoldi" else 0.17
     depth = r.choice([0, 0, 0, 1, 1, 2])
     t = g.tree(depth, r.randint(2, 6) if depth == 0 else None, cplx, maxn=4)
     return dict(recipe=t, alg=name, trace=r.choice(["exact", "exact", "auto"]), tol=r.choice([None, None, 1e-4, 1e-8, 1e-10]), graded=cond)
@@ -149,15 +152,20 @@ def gen_case(ctx, krylov, present=()):
         return gen_graded(ctx, present)
     cplx = r.random() < 0.35
     kname = r.choice(["lanczos", "lanczos", "arnoldi"]) if krylov else None
+    if kname == "arnoldi":
+        cplx = r.random() < 0.6
     # Arnoldi accepts any square operator: general (indefinite, negative-determinant, complex) base nodes are generated as soon as
     # the Krylov rule no longer returns (t/|t|, |t|) (flag krylov_slogdet_abs_of_trace absent); Lanczos needs self-adjoint ones
     g = C.RGen(r, krylov=("general" if (kname == "arnoldi" and "krylov_slogdet_abs_of_trace" not in present) else krylov))
-    g.wide = wide = (not krylov) and r.random() < 0.2   # Cholesky / LU / structural rules on badly scaled and ill-conditioned data
+    g.wrap_p = 0.35 if kname == "arnoldi" else 0.17
+    g.wide = wide = (not krylov) and r.random() < 0.3   # Cholesky / LU / structural rules on badly scaled and ill-conditioned data
     t = g.tree(r.choice([0, 1, 1, 2, 2, 2, 3] if ctx.tier != "thorough" else [0, 1, 2, 2, 3, 3, 4]), None, cplx, maxn=4)
     if krylov:
         name = kname
     else:
         name = r.choice(["auto", "auto", "auto", "lu", "lu", "chol"])
+        if any("+tiny" in k for k in C.rkinds(t)):   # PSD nodes at tiny scale: mostly through the Cholesky base case (explicitly or chosen by Auto)
+            name = r.choice(["auto", "auto", "chol", "chol", "lu"])
     trace = r.choice(["exact", "auto"])
     return dict(recipe=t, alg=name, trace=trace, tol=(r.choice([None, None, None, 1e-8, 1e-10]) if krylov else None), wide=wide)
 
@@ -504,6 +512,11 @@ def run(ctx):
                    complex_cases=sum(1 for r_ in info if not r_["real"]), logabs_negative=lneg, real_sign_negative=sneg,
                    permutation_leaves=perm_par, scalar_leaf_sizes=scal_sizes, lu_decorations=lu_all, lu_odd_pivot_permutations=lu_odd,
                    max_size=max(c["N"] for c in cases),
+                   wrapped_nodes={w: sum(1 for c in cases for k in C.rkinds(c["recipe"]) if k.startswith("Wrap:" + w)) for w in ("H", "T")},
+                   wrapped_inner_kinds=sorted({k.split(":")[2].split("+")[0] for c in cases for k in C.rkinds(c["recipe"]) if k.startswith("Wrap:")}),
+                   wrapped_krylov_cases=sum(1 for c in cases if c["alg"] in ("lanczos", "arnoldi") and any(k.startswith("Wrap:") for k in C.rkinds(c["recipe"]))),
+                   tiny_scale_psd_nodes=sum(1 for c in cases for k in C.rkinds(c["recipe"]) if "+tiny" in k),
+                   tiny_scale_cases_by_alg={a: sum(1 for c in cases if c["alg"] == a and any("+tiny" in k for k in C.rkinds(c["recipe"]))) for a in ("auto", "chol", "lu")},
                    wide_regime_cases=len(wide_cases), wide_regime_max_node_cond=max([c["condN"] for c in wide_cases] + [0]),
                    max_abs_logabs=max(abs(r_["oracle"][1]) for r_ in info), min_logabs=min(r_["oracle"][1] for r_ in info),
                    graded_cond_log10_histogram={str(k): sum(1 for c in grad_cases if int(math.log10(c["graded"])) == k) for k in range(1, 11)},
